@@ -297,8 +297,15 @@ def run_model(fn, cases, shard=400, imports="Run", tag="m"):
                 f.write("From XcpModel Require Import Base %s.\n" % imports)
                 f.write("Set Printing Width 1000000.\nSet Printing Depth 10000000.\n")
                 f.write("Eval vm_compute in map %s %s.\n" % (fn, coq_list(shards[k])))
+            def big_stack():
+                # the case list is one large literal: Coq's parser and vm_compute recurse over it
+                import resource
+                try:
+                    resource.setrlimit(resource.RLIMIT_STACK, (resource.RLIM_INFINITY, resource.RLIM_INFINITY))
+                except (ValueError, OSError):
+                    pass
             return subprocess.Popen(["coqc", "-noglob", "-Q", os.path.join(COQ, "theories"), "XcpModel", vf],
-                                    stdout=subprocess.PIPE, stderr=subprocess.STDOUT, text=True, cwd=wd)
+                                    stdout=subprocess.PIPE, stderr=subprocess.STDOUT, text=True, cwd=wd, preexec_fn=big_stack)
         pending = list(range(len(shards)))
         running = {}
         while pending or running:
